@@ -1,7 +1,7 @@
 """C05 - forward results of tensor ops match the NumPy/PyTorch definition they mirror (argument plumbing, dim handling, validation, operators, iteration, constructors)."""
 import ast, itertools
 from sa import opcat, rules_engine as E
-from sa.core import norm, body_walk, dotted, names_in
+from sa.core import norm, body_walk, dotted, names_in, inline_expr
 from sa.cfg import CFG, facts_at
 from sa.report import Incomplete
 from sa.rules_template import bind_call, kernel_func
@@ -93,18 +93,24 @@ def check_delegate(model, R, ops):
     for name, m in tcls.methods.items():
         if name.startswith('_') or m.cls is not tcls or '.setter' in name:
             continue
-        rets = [s for s in m.node.body if isinstance(s, ast.Return)]
-        if len(rets) != 1 or not isinstance(rets[0].value, ast.Call):
+        rets = [s_ for s_ in m.node.body if isinstance(s_, ast.Return)]
+        if len(rets) != 1:
             continue
-        c = rets[0].value
+        c = inline_expr(m.node, rets[0].value)
+        if not isinstance(c, ast.Call):
+            continue
         d = model.resolve(m.mod, c.func)
         if not d or not d.startswith('synapgrad.functional.') or d not in model.funcs:
             continue
         callee = model.funcs[d]
-        args = [norm(a) for a in c.args]
         want = m.pos_params
-        ok = args == want and not c.keywords
         cp = callee.pos_params
+        try:
+            b, star = bind_call(c, callee)
+        except Incomplete:
+            b, star = {}, None
+        # every callee parameter receives the method parameter at the same position (positional or by keyword)
+        ok = star is None and len(cp) == len(want) and all(k in b and norm(b[k]) == w for w, k in zip(want, cp))
         roles_ok = all(ROLE.get(w, w) == ROLE.get(k, k) for w, k in zip(want[1:], cp[1:]))
         R.ob('C05.DELEGATE', m.qualname, '%s(%s) -> %s%s' % (name, ', '.join(want[1:]), callee.name, tuple(cp[1:])), ok and roles_ok and len(cp) == len(want),
              'a Tensor method must forward self and all of its parameters, in order, to the functional op parameters of the same role', m.loc)
@@ -187,18 +193,18 @@ def check_operators(model, R):
         for n in m.node.body:
             if isinstance(n, ast.Assign) and isinstance(n.targets[0], ast.Name) and n.targets[0].id == o:
                 # other = other if isinstance(other, Tensor) else Tensor(other, ...)   (scalar wrapping keeps the operand)
-                t = tree(n.value, model, m.mod)
+                t = tree(n.value, model, m.mod, cls=tcls)
                 ok = t == V(o)
                 R.ob('C05.OPERATORS', m.qualname, norm(n)[:80], ok, 'scalar wrapping must keep the operand (Tensor(%s))' % o, m.loc)
-        rets = [n for n in m.node.body if isinstance(n, ast.Return)]
+        rets = [n for n in body_walk(m.node) if isinstance(n, ast.Return)]
         if len(rets) != 1:
             R.incomplete_at('C05.OPERATORS', m.qualname, 'expected a single return')
             continue
-        got = tree(rets[0].value, model, m.mod)
+        got = tree(inline_expr(m.node, rets[0].value), model, m.mod, cls=tcls)
         R.ob('C05.OPERATORS', m.qualname, show(got), got == mk(s, o), 'documented: %s' % show(mk(s, o)), m.loc)
     m = tcls.methods.get('__neg__')
     rets = [n for n in m.node.body if isinstance(n, ast.Return)] if m else []
-    got = tree(rets[0].value, model, m.mod) if rets else None
+    got = tree(inline_expr(m.node, rets[0].value), model, m.mod, cls=tcls) if rets else None
     R.ob('C05.OPERATORS', T + '.__neg__', show(got) if got else 'missing', got == MUL(V('self'), C(-1)), '-x is x * -1', m.loc if m else '')
 
 
@@ -225,28 +231,56 @@ def check_iter(model, R):
 
 
 # ------------------------------------------------------------------------------------------------ CTOR
+def _unpack_idiom(fnode, var):
+    """`if len(v) == 1 and isinstance(v[0], (list, tuple)): v = v[0]` (or returning v[0]) inside fnode"""
+    for s in ast.walk(fnode):
+        if isinstance(s, ast.If):
+            t = norm(s.test)
+            if 'isinstance(%s[0], (list, tuple))' % var in t and 'len(%s) == 1' % var in t:
+                if any((isinstance(x, ast.Assign) and norm(x) == '%s = %s[0]' % (var, var)) or (isinstance(x, ast.Return) and norm(x.value) == '%s[0]' % var) for x in s.body):
+                    return s
+    return None
+
+
+def _shape_normalised(model, f, cfg, ret):
+    n = _unpack_idiom(f.node, 'shape')
+    if n is not None:
+        top = n
+        return cfg.dominates(top, ret)
+    # through a module-level helper:  shape = helper(shape)
+    for s in body_walk(f.node):
+        if isinstance(s, ast.Assign) and norm(s.targets[0]) == 'shape' and isinstance(s.value, ast.Call) and [norm(a) for a in s.value.args] == ['shape']:
+            d = model.resolve(f.mod, s.value.func)
+            h = model.funcs.get(d) if d else None
+            if h is not None and len(h.pos_params) == 1 and _unpack_idiom(h.node, h.pos_params[0]) is not None and cfg.dominates(s, ret):
+                rets = [r for r in body_walk(h.node) if isinstance(r, ast.Return)]
+                if all(norm(r.value) in (h.pos_params[0], '%s[0]' % h.pos_params[0]) for r in rets):
+                    return True
+    return False
+
+
 def check_ctor(model, R):
     names = ['tensor', 'empty', 'ones', 'ones_like', 'zeros', 'zeros_like', 'arange', 'rand', 'randn', 'normal', 'randint', 'eye']
     R.rule('C05.CTOR', 'every constructor forwards dtype / requires_grad / name / device to Tensor(...), normalises *shape before use, and *_like take shape and dtype from the source data', floor=len(names))
     for n in names:
         f = model.func('synapgrad.tensor.' + n)
         cfg = CFG(f.node)
-        rets = [s for s in body_walk(f.node) if isinstance(s, ast.Return)]
-        ok = len(rets) == 1 and isinstance(rets[0].value, ast.Call) and model.resolve(f.mod, rets[0].value.func) == T
+        rets = [s_ for s_ in body_walk(f.node) if isinstance(s_, ast.Return)]
+        rv = inline_expr(f.node, rets[0].value) if len(rets) == 1 else None
+        ok = len(rets) == 1 and isinstance(rv, ast.Call) and model.resolve(f.mod, rv.func) == T
         why = 'must return Tensor(...)'
         if ok:
-            c = rets[0].value
+            c = rv
             kw = {k.arg: norm(k.value) for k in c.keywords}
             fwd = [p for p in ('dtype', 'requires_grad', 'name', 'device') if p in f.params]
             missing = [p for p in fwd if kw.get(p) != p]
             ok = not missing
             why = 'constructor argument(s) %s are not forwarded to Tensor(...)' % missing
             if ok and f.node.args.vararg is not None and f.node.args.vararg.arg == 'shape' and n != 'normal':   # normal(loc, scale, *shape) takes varargs only; a tuple is rejected by NumPy, which C05 allows
-                norms = [s for s in body_walk(f.node) if isinstance(s, ast.If) and 'isinstance(shape[0], (list, tuple))' in norm(s.test) and 'len(shape) == 1' in norm(s.test)]
-                ok = len(norms) == 1 and cfg.dominates(norms[0], rets[0]) and any(isinstance(x, ast.Assign) and norm(x) == 'shape = shape[0]' for x in norms[0].body)
+                ok = _shape_normalised(model, f, cfg, rets[0])
                 why = 'a shape given as one tuple/list must be unpacked before use'
             if ok and n.endswith('_like'):
-                inner = c.args[0]
+                inner = inline_expr(f.node, c.args[0])
                 ok = isinstance(inner, ast.Call) and inner.args and norm(inner.args[0]) == '%s.data' % f.pos_params[0] and model.resolve(f.mod, inner.func) == 'numpy.' + n
                 why = '%s must build its data from the source\'s .data (shape and dtype of the source)' % n
         R.ob('C05.CTOR', f.qualname, norm(rets[0].value)[:100] if rets else 'no return', ok, why, f.loc)
